@@ -69,12 +69,22 @@ type vC06Home struct {
 	readerpkg.RMNHome // unimplemented methods are never called by the controller
 	nodes             []rmntypes.HomeNodeInfo
 	f                 map[cciptypes.ChainSelector]int
+	// long-lived use (history part): the reader knows exactly one config digest at a time, its answers are replaced
+	// between calls (always by freshly built values, never by mutation of what an earlier answer handed out)
+	strict bool
+	digest cciptypes.Bytes32
 }
 
-func (h *vC06Home) GetRMNNodesInfo(cciptypes.Bytes32) ([]rmntypes.HomeNodeInfo, error) {
+func (h *vC06Home) GetRMNNodesInfo(d cciptypes.Bytes32) ([]rmntypes.HomeNodeInfo, error) {
+	if h.strict && d != h.digest {
+		return nil, errors.New("stub: unknown config digest")
+	}
 	return h.nodes, nil
 }
-func (h *vC06Home) GetF(cciptypes.Bytes32) (map[cciptypes.ChainSelector]int, error) {
+func (h *vC06Home) GetF(d cciptypes.Bytes32) (map[cciptypes.ChainSelector]int, error) {
+	if h.strict && d != h.digest {
+		return nil, errors.New("stub: unknown config digest")
+	}
 	cp := map[cciptypes.ChainSelector]int{}
 	for k, v := range h.f {
 		cp[k] = v
@@ -149,11 +159,29 @@ type vC06Peer struct {
 	epoch        int
 	sends        []vC06Send
 	fails        []bool
+	base         int // Send calls of earlier ComputeReportSignatures calls on the same controller (history part)
+	inits        int // InitConnection calls seen
 }
 
 func (p *vC06Peer) InitConnection(context.Context, cciptypes.Bytes32, cciptypes.Bytes32,
 	[]ragep2ptypes.PeerID, []rmntypes.HomeNodeInfo) error {
+	p.mu.Lock()
+	p.inits++
+	p.mu.Unlock()
 	return nil
+}
+
+// arm prepares the long-lived peer for the next call of the same controller: the channels stay, the script starts over,
+// model request ids go on counting where the previous call stopped.
+func (p *vC06Peer) arm(fails []bool, cancel context.CancelFunc) {
+	p.mu.Lock()
+	defer p.mu.Unlock()
+	p.base += len(p.sends)
+	p.sends, p.epoch, p.fails, p.cancel = nil, 0, fails, cancel
+	p.nextPreload, p.cancelAtNext = nil, false
+	for len(p.preload) > 0 {
+		<-p.preload
+	}
 }
 func (p *vC06Peer) Close() error { return nil }
 func (p *vC06Peer) Send(n rmntypes.HomeNodeInfo, request []byte) error {
@@ -164,7 +192,7 @@ func (p *vC06Peer) Send(n rmntypes.HomeNodeInfo, request []byte) error {
 		panic("harness: request does not unmarshal")
 	}
 	k := len(p.sends)
-	s := vC06Send{node: uint64(n.ID), rid: req.RequestId, iid: uint64(k + 1), epoch: p.epoch}
+	s := vC06Send{node: uint64(n.ID), rid: req.RequestId, iid: uint64(p.base + k + 1), epoch: p.epoch}
 	s.ok = !(k < len(p.fails) && p.fails[k])
 	if or := req.GetObservationRequest(); or != nil {
 		for _, r := range or.FixedDestLaneUpdateRequests {
@@ -546,6 +574,29 @@ type vC06Gen struct {
 	attack              bool
 	attacker, attackChain uint64
 	sweep *vC06Sweep
+	// history part: answers to requests of EARLIER calls on the same controller that may still arrive now (real and
+	// model request ids of that earlier call)
+	stale []vC06Item
+	// history part: the identity a node had in an EARLIER call where it differs from the current one (offchain key of a
+	// node whose key was rotated or that left RMNHome; signer address of a node whose address changed or that is no
+	// signer any more).  A node that is unaware of the change, or Byzantine, still answers with it.
+	oldKey, oldAddr map[uint64]uint64
+}
+
+// previousIdentity lets a Byzantine node answer an otherwise correct response with its earlier key / address
+func (g *vC06Gen) previousIdentity(b *vC06Body, node uint64, phaseB bool) bool {
+	if phaseB {
+		if a, ok := g.oldAddr[node]; ok && b.by != a && g.c.byzantine[node] && g.r.Chance(1, 2) {
+			b.by = a
+			return true
+		}
+		return false
+	}
+	if k, ok := g.oldKey[node]; ok && b.sig != k && g.c.byzantine[node] && g.r.Chance(1, 2) {
+		b.sig = k
+		return true
+	}
+	return false
 }
 
 // ---------------------------------------------------------------- systematic anomaly sweep
@@ -738,6 +789,8 @@ func (g *vC06Gen) goodObs(node uint64, s vC06Send) vC06Body {
 		dig: g.c.digest}
 	if n := g.c.node(node); n != nil {
 		b.sig = n.key
+	} else if k, ok := g.oldKey[node]; ok {
+		b.sig = k // no longer in RMNHome: the node still has the key it had
 	}
 	for _, ch := range s.chains {
 		rq := g.c.req(ch)
@@ -888,6 +941,9 @@ func (g *vC06Gen) goodSig(node uint64, s vC06Send) vC06Body {
 			b.by = sg.addr
 		}
 	}
+	if a, ok := g.oldAddr[node]; ok && b.by == 0 {
+		b.by = a // no signer any more: the node still signs with the address it had
+	}
 	return b
 }
 func (g *vC06Gen) corruptSig(b *vC06Body) string { return g.corruptSigK(b, g.r.Intn(6)) }
@@ -1002,10 +1058,17 @@ func (g *vC06Gen) next(sends []vC06Send) (node uint64, body vC06Body, cls string
 		}
 		return vPick(r, g.c.nodes).id, vC06Body{garbage: true}, "garbage"
 	}
+	if len(g.stale) > 0 && r.Chance(1, 6) {
+		it := vPick(r, g.stale)
+		return it.node, it.body, "late-answer-to-earlier-call"
+	}
 	if len(open) > 0 && r.Intn(100) < g.honest {
 		s := vPick(r, open)
 		g.used[s.iid] = true
 		b := mk(s.node, s)
+		if g.previousIdentity(&b, s.node, phaseB) {
+			return s.node, b, "previous-identity"
+		}
 		if g.c.byzantine[s.node] && !phaseB && g.villainA >= 0 {
 			return s.node, b, "villain:" + g.corruptObsK(&b, g.villainA)
 		}
@@ -1095,24 +1158,69 @@ func (it vC06Item) coq() string {
 	return "IRaceCancel"
 }
 
-func vC06Run(r *vRand, cfgCls string, maxItems int, watchdog time.Duration, sweep *vC06Sweep) (coq string, cls string, nt bool, show map[string]any) {
-	c := vC06GenCfg(r, cfgCls)
-	if sweep != nil {
-		c.byzantine = map[uint64]bool{}
+// vC06Env is what lives as long as the controller does: the controller itself and its collaborators.  The random /
+// sweep parts build a fresh one per call; the history part keeps ONE for a whole sequence of calls.
+type vC06Env struct {
+	home       *vC06Home
+	peer       *vC06Peer
+	crypto     *vC06Crypto
+	ctl        *controller
+	dueA, dueB bool       // the timer durations are fixed at construction
+	stale      []vC06Item // answers to requests of earlier calls that may still arrive
+	calls      int
+	lastKey, lastAddr map[uint64]uint64 // node -> key / signer address it had in the most recent call that knew it
+}
+
+func vC06Dur(due bool) time.Duration {
+	if due {
+		return time.Nanosecond
 	}
-	// the real inputs
-	home := &vC06Home{f: map[cciptypes.ChainSelector]int{}}
+	return time.Hour
+}
+
+// vC06HomeNodes builds fresh reader answers for a configuration (new slice, new sets, new map on every call)
+func vC06HomeNodes(c *vC06Cfg) ([]rmntypes.HomeNodeInfo, map[cciptypes.ChainSelector]int) {
+	var nodes []rmntypes.HomeNodeInfo
 	for _, n := range c.nodes {
 		set := mapset.NewSet[cciptypes.ChainSelector]()
 		for _, ch := range n.chains {
 			set.Add(cciptypes.ChainSelector(ch))
 		}
-		home.nodes = append(home.nodes, rmntypes.HomeNodeInfo{ID: rmntypes.NodeID(n.id), SupportedSourceChains: set,
+		nodes = append(nodes, rmntypes.HomeNodeInfo{ID: rmntypes.NodeID(n.id), SupportedSourceChains: set,
 			OffchainPublicKey: vC06Key(n.key)})
 	}
+	f := map[cciptypes.ChainSelector]int{}
 	for _, p := range c.homeF {
-		home.f[cciptypes.ChainSelector(p[0])] = int(p[1])
+		f[cciptypes.ChainSelector(p[0])] = int(p[1])
 	}
+	return nodes, f
+}
+
+func vC06Run(r *vRand, cfgCls string, maxItems int, watchdog time.Duration, sweep *vC06Sweep) (coq string, cls string, nt bool, show map[string]any) {
+	c := vC06GenCfg(r, cfgCls)
+	in, out, cls, nt, show := vC06Call(nil, r, c, cfgCls, maxItems, watchdog, sweep)
+	return cPair(in, cList([]string{out})), cls, nt, show
+}
+
+// vC06Call makes ONE scripted ComputeReportSignatures call for configuration c: on a controller built for this call
+// (env == nil) or on the long-lived controller of env, whose reader / peer / crypto stubs are re-scripted first.
+func vC06Call(env *vC06Env, r *vRand, c *vC06Cfg, cfgCls string, maxItems int, watchdog time.Duration,
+	sweep *vC06Sweep) (in string, out string, cls string, nt bool, show map[string]any) {
+	if sweep != nil {
+		c.byzantine = map[uint64]bool{}
+	}
+	if env != nil {
+		c.dueA, c.dueB = env.dueA, env.dueB
+	}
+	// the real inputs
+	var home *vC06Home
+	if env != nil {
+		home = env.home
+		home.digest = vC06Digest(c.digest)
+	} else {
+		home = &vC06Home{}
+	}
+	home.nodes, home.f = vC06HomeNodes(c)
 	var reqs []*rmnpb.FixedDestLaneUpdateRequest
 	for _, q := range c.reqs {
 		reqs = append(reqs, &rmnpb.FixedDestLaneUpdateRequest{
@@ -1131,23 +1239,31 @@ func vC06Run(r *vRand, cfgCls string, maxItems int, watchdog time.Duration, swee
 	if sweep != nil {
 		failCls = 0
 	}
+	if env != nil && failCls >= 5 && r.Chance(1, 2) {
+		failCls = 0 // history part: more calls that get as far as counting votes
+	}
 	fails := make([]bool, 40)
 	for i := range fails {
 		fails[i] = (failCls >= 5 && failCls <= 6 && r.Chance(1, 5)) || (failCls == 7 && r.Chance(2, 3))
 	}
 	ctx, cancel := context.WithCancel(context.Background())
 	defer cancel()
-	peer := &vC06Peer{ch: make(chan PeerResponse), preload: make(chan PeerResponse, 1), cancel: cancel, fails: fails}
-	crypto := &vC06Crypto{}
-	dur := func(due bool) time.Duration {
-		if due {
-			return time.Nanosecond
-		}
-		return time.Hour
+	var peer *vC06Peer
+	var crypto *vC06Crypto
+	var ctl *controller
+	if env != nil {
+		peer, crypto, ctl = env.peer, env.crypto, env.ctl
+		peer.arm(fails, cancel)
+		crypto.mu.Lock()
+		crypto.reports = nil
+		crypto.mu.Unlock()
+	} else {
+		peer = &vC06Peer{ch: make(chan PeerResponse), preload: make(chan PeerResponse, 1), cancel: cancel, fails: fails}
+		crypto = &vC06Crypto{}
+		ctl = &controller{lggr: logger.Nop(), rmnCrypto: crypto, peerClient: peer, rmnHomeReader: home,
+			ed25519Verifier: vC06Ed{}, signObservationPrefix: vC06Prefix,
+			observationsInitialRequestTimerDuration: vC06Dur(c.dueA), reportsInitialRequestTimerDuration: vC06Dur(c.dueB)}
 	}
-	ctl := &controller{lggr: logger.Nop(), rmnCrypto: crypto, peerClient: peer, rmnHomeReader: home,
-		ed25519Verifier: vC06Ed{}, signObservationPrefix: vC06Prefix, observationsInitialRequestTimerDuration: dur(c.dueA),
-		reportsInitialRequestTimerDuration: dur(c.dueB)}
 
 	gen := &vC06Gen{r: r, c: c, used: map[uint64]bool{}, honest: vPick(r, []int{97, 92, 85, 70, 40, 15}),
 		villainA: -1, villainB: -1}
@@ -1162,7 +1278,33 @@ func vC06Run(r *vRand, cfgCls string, maxItems int, watchdog time.Duration, swee
 	if r.Chance(1, 4) {
 		cancelAt = r.Intn(maxItems)
 	}
-	if cfgCls == "ok" && len(c.reqs) >= 2 && r.Chance(1, 5) {
+	if env != nil {
+		gen.stale = env.stale
+		gen.oldKey, gen.oldAddr = map[uint64]uint64{}, map[uint64]uint64{}
+		for id, k := range env.lastKey {
+			if n := c.node(id); n == nil || n.key != k {
+				gen.oldKey[id] = k
+			}
+		}
+		for id, a := range env.lastAddr {
+			cur := uint64(0)
+			for _, sg := range c.signers {
+				if sg.node == id {
+					cur = sg.addr
+				}
+			}
+			if cur != a {
+				gen.oldAddr[id] = a
+			}
+		}
+		if gen.honest < 85 && r.Chance(2, 3) {
+			gen.honest = 92
+		}
+		if cancelAt >= 0 && r.Chance(1, 2) {
+			cancelAt = -1
+		}
+	}
+	if cfgCls == "ok" && len(c.reqs) >= 2 && r.Chance(1, 5) && (env == nil || env.dueA) {
 		// attack mode: the attacker is a node that observes at least two requested lanes
 		best, bestN := uint64(0), 0
 		for _, n := range c.nodes {
@@ -1408,9 +1550,14 @@ func vC06Run(r *vRand, cfgCls string, maxItems int, watchdog time.Duration, swee
 			}
 		}
 	}
-	out := cApp("mkOut", cN(kind), cList(lanes), cList(sigs), log, cList(attr), cBool(repok))
-	in := cApp("mkIn", c.coq(), cListN(asked), cListN(a2), cListN(b1), cListN(b2),
-		cMap(fails, cBool), cMap(items, func(it vC06Item) string { return it.coq() }))
+	out = cApp("mkOut", cN(kind), cList(lanes), cList(sigs), log, cList(attr), cBool(repok))
+	// the model reads a missing entry of the failure script as "the Send succeeds": trailing successes are not printed
+	nf := len(fails)
+	for nf > 0 && !fails[nf-1] {
+		nf--
+	}
+	in = cApp("mkIn", c.coq(), cListN(asked), cListN(a2), cListN(b1), cListN(b2),
+		cMap(fails[:nf], cBool), cMap(items, func(it vC06Item) string { return it.coq() }))
 	timer := map[bool]string{false: "never", true: "at-start"}
 	cls = fmt.Sprintf("cfg=%s/timerA=%s/kind=%d", cfgCls, timer[c.dueA], kind)
 	nt = firstSigEpoch >= 0 || kind == 0
@@ -1418,7 +1565,45 @@ func vC06Run(r *vRand, cfgCls string, maxItems int, watchdog time.Duration, swee
 		"reqs": fmt.Sprintf("%+v", c.reqs), "signers": fmt.Sprintf("%+v", c.signers),
 		"homeF": c.homeF, "remoteF": c.remoteF, "items": len(items), "sends": len(sends),
 		"err": fmt.Sprint(res.err), "panic": fmt.Sprint(res.pan)}
-	return cPair(in, cList([]string{out})), cls, nt, show
+	if env != nil {
+		// what may still arrive during later calls on this controller: a correct answer to every request of this call
+		// (from its addressee, under its real request id), and what was delivered in this call, once more
+		env.calls++
+		if env.lastKey == nil {
+			env.lastKey, env.lastAddr = map[uint64]uint64{}, map[uint64]uint64{}
+		}
+		for _, n := range c.nodes {
+			env.lastKey[n.id] = n.key
+		}
+		for _, sg := range c.signers {
+			env.lastAddr[sg.node] = sg.addr
+		}
+		phaseB := false
+		for _, s := range sends {
+			phaseB = phaseB || s.kind == 1
+		}
+		for _, s := range sends {
+			if !s.ok {
+				continue
+			}
+			var b vC06Body
+			if s.kind == 1 {
+				b = gen.goodSig(s.node, s)
+			} else {
+				b = gen.goodObs(s.node, s)
+			}
+			env.stale = append(env.stale, vC06Item{node: s.node, body: b})
+		}
+		for i, b := range gen.sent {
+			if !b.garbage && b.iid < 900 && i%3 == 0 {
+				env.stale = append(env.stale, vC06Item{node: gen.sentBy[i], body: b})
+			}
+		}
+		if len(env.stale) > 24 {
+			env.stale = env.stale[len(env.stale)-24:]
+		}
+	}
+	return in, out, cls, nt, show
 }
 
 func TestVerif_C06(t *testing.T) {
